@@ -163,7 +163,7 @@ class C13(Prop):
                        else r for r in t)
             yield Case('search', (rng.choice(['x', 'y', '1', 'a']), rng.choice([None, 'k', 'a', ('k', 'a')]), compl, st))
             # regular expressions proper and flags, judged against re.search on the real code (both halves of the partition)
-            yield Case('search_re', (rng.choice(['X', '^x', 'y$', 'x|1', '[ab]', 'Y']), rng.choice([None, 'k', 'a']),
+            yield Case('search_re', (rng.choice(['X', '^x', 'y$', 'x|1', '[ab]', 'Y']), rng.choice([None, 'k', 'a', 0, 1]),
                                      rng.choice([0, 0, 2, 8]), st))
             yield Case('search_re', (rng.choice(['X', 'Y', 'XY']), rng.choice([None, 'a', 'a']), 2, st))
             # biselect (with and without a complement keyword of its own) and the tables of facet partition the input
@@ -279,7 +279,7 @@ class C13(Prop):
         def hit(r):
             if field is None:
                 return any(prog.search(str(v)) for v in r)
-            i = hdr.index(field)
+            i = field if isinstance(field, int) else hdr.index(field)
             return bool(prog.search(str(r[i])))
         want_in = [tuple(r) for r in t[1:] if hit(r)]
         want_out = [tuple(r) for r in t[1:] if not hit(r)]
